@@ -111,6 +111,43 @@ EXPERIMENTS = [
      [("    if ((c == ' ') || (c == '\\t')) {", "    if ((c == ' ') || (c == '\\t') || (c == '\\n')) {")]),
     ("B7", "break", "non-decimal recogniser: `token->ptr += 1` instead of 2 (token extent includes the radix letter)",
      [("        token->ptr += 2; /* ignore number prefix */", "        token->ptr += 1; /* ignore number prefix */")]),
+    # ---- round 2 (Lemmas/LexerCTok2.lean: suffix, headers, strings, expression, block)
+    ("R7", "rewrite", "suffix: `while (skipSlashDot(state)) {..}` rewritten as `for (;;) { if (!skipSlashDot(state)) break; .. }`",
+     [("        while (skipSlashDot(state)) {\n            skipAlpha(state);",
+       "        for (;;) {\n            if (!skipSlashDot(state)) break;\n            skipAlpha(state);")]),
+    ("R8", "rewrite", "block: `for (; i > 0; i--) { if (c) {..} else break; }` rewritten as `while (i > 0) { if (!c) break; ..; i--; }`",
+     [("""            for (; i > 0; i--) {
+                if (!iseos(state) && isdigit((uint8_t)(state->pos[0]))) {
+                    arbitraryBlockLength *= 10;
+                    arbitraryBlockLength += (state->pos[0] - '0');
+                    state->pos++;
+                } else {
+                    break;
+                }
+            }""", """            while (i > 0) {
+                if (iseos(state) || !isdigit((uint8_t)(state->pos[0]))) {
+                    break;
+                }
+                arbitraryBlockLength *= 10;
+                arbitraryBlockLength += (state->pos[0] - '0');
+                state->pos++;
+                i--;
+            }""")]),
+    ("B8", "break", "skipQuoteProgramData: `!iseos(state) &&` dropped in the look-ahead for a doubled quote (reads past a string that ends the buffer)",
+     [("            if (!iseos(state) && ischr(state, quote)) {", "            if (ischr(state, quote)) {")]),
+    ("B9", "break", "string recogniser: `!iseos(state) &&` dropped in the test for the closing double quote (`\"abc` reads offset 4)",
+     [("            if (!iseos(state) && ischr(state, '\"')) {", "            if (ischr(state, '\"')) {")]),
+    ("B10", "break", "block recogniser: `!iseos(state) &&` dropped in the length-digit loop (`#2` reads offset 2)",
+     [("                if (!iseos(state) && isdigit((uint8_t)(state->pos[0]))) {\n                    arbitraryBlockLength *= 10;",
+       "                if (isdigit((uint8_t)(state->pos[0]))) {\n                    arbitraryBlockLength *= 10;")]),
+    ("B11", "break", "suffix loop: `skipChr(state, '-')` dropped inside the loop (`V/S-1` no longer one suffix)",
+     [("            skipAlpha(state);\n            skipChr(state, '-');\n            skipDigit(state);\n        }",
+       "            skipAlpha(state);\n            skipDigit(state);\n        }")]),
+    ("B12", "break", "block recogniser: `>=` replaced by `>` in the end-of-buffer comparison (a block that ends the buffer is incomplete)",
+     [("                if ((state->buffer + state->len) >= (state->pos)) {", "                if ((state->buffer + state->len) > (state->pos)) {")]),
+    ("B13", "break", "program mnemonic: SKIP_INCOMPLETE and SKIP_OK swapped (a mnemonic that ends the buffer counts as complete)",
+     [("        return (state->pos - startPos) * SKIP_INCOMPLETE;\n    } else {\n        return (state->pos - startPos) * SKIP_OK;",
+       "        return (state->pos - startPos) * SKIP_OK;\n    } else {\n        return (state->pos - startPos) * SKIP_INCOMPLETE;")]),
 ]
 
 
